@@ -8,6 +8,7 @@ import JominiModel.Proofs.TextTapeScalars
 import JominiModel.Proofs.TextTapeFaithful
 import JominiModel.Proofs.TextTapeTotal
 import JominiModel.Proofs.TextTapeFaithful2
+import JominiModel.Proofs.TextTapeFaithful3
 import JominiModel.Generated.Tables
 /-
 C01 — Text tape mirrors the document's structure regardless of layout.
@@ -108,10 +109,13 @@ of objects, empty containers, headers, parameter blocks, mixed containers, optio
 Proved so far: fragment 1 = flat documents (top-level `key op value` fields, all 8 operators,
 quoted scalars with escapes, unquoted scalars, any valid blank layout incl. comments, `;`, CR/LF,
 tight gaps where lexically permitted); fragment 2 = the same with nested non-empty objects of any
-depth as values (`key op { fields }`, incl. `?=` / `!=` on the first field).  Missing fragments:
-arrays and arrays of objects, empty containers, the optional `=` before `{`, ghost `{}`, headers,
-parameter blocks, mixed containers, `@[..]` variables, BOM in front of a document (C01_bom covers
-it separately).  These are decided by the correspondence run and the layout/faithfulness oracles.
+depth as values (`key op { fields }`, incl. `?=` / `!=` on the first field); fragment 3 = values
+are scalars, empty containers `{}`, objects, and arrays of scalars / objects / arrays / empty
+containers, nested to any depth (the structure of save files).  Missing fragments: the optional
+`=` before `{`, ghost `{}` in key position and at the start of a container, headers (`rgb {..}`),
+parameter blocks, object→array mixed containers, `@[..]` variables and unquoted scalars starting
+with `@`, BOM in front of a document (C01_bom covers it separately).  These are decided by the
+correspondence run and the layout/faithfulness oracles.
 -/
 /-- fragment 1 of C01_faithful: a flat document under ANY valid layout parses to a tape that is,
 up to the scalar positions, exactly the document's keys, operators and scalar bytes (quoted vs
@@ -155,6 +159,28 @@ theorem C01_layout_independent_nested_partial (fs fs' : LFields) (gt gt' : Bytes
     ∃ T T', parse (renderF fs ++ gt) = .ok T false ∧ parse (renderF fs' ++ gt') = .ok T' false ∧
       T.map Tok.erase = T'.map Tok.erase :=
   layout_independent_nested fs fs' gt gt' hgt hgt' hv hv' hb hb' hc
+
+/-- fragment 3 of C01_faithful: fields whose values are scalars, empty containers, objects and
+arrays (of scalars, objects, arrays, empty containers) nested to any depth, under ANY valid
+layout: the tape is, up to the scalar positions, exactly the document's keys, operators, scalar
+bytes (quoted vs unquoted), container kinds (object / array) and nesting (`end` links). -/
+theorem C01_faithful_tree_partial (fs : JFields) (gt : Bytes) (hgt : Blank gt) (hv : JValidF fs gt)
+    (hb : hasBom (jrenderF fs ++ gt) = false) :
+    ∃ T, parse (jrenderF fs ++ gt) = .ok T false ∧ T.map Tok.erase = ktapeF (kcontentF fs) 0 :=
+  faithful_tree fs gt hgt hv hb
+
+/-- fragment 3 of C01_layout_independent. -/
+theorem C01_layout_independent_tree_partial (fs fs' : JFields) (gt gt' : Bytes)
+    (hgt : Blank gt) (hgt' : Blank gt') (hv : JValidF fs gt) (hv' : JValidF fs' gt')
+    (hb : hasBom (jrenderF fs ++ gt) = false) (hb' : hasBom (jrenderF fs' ++ gt') = false)
+    (hc : kcontentF fs = kcontentF fs') :
+    ∃ T T', parse (jrenderF fs ++ gt) = .ok T false ∧ parse (jrenderF fs' ++ gt') = .ok T' false ∧
+      T.map Tok.erase = T'.map Tok.erase :=
+  layout_independent_tree fs fs' gt gt' hgt hgt' hv hv' hb hb' hc
+
+/-- the hypotheses are satisfiable: `a={1 {b=c} {}} d={{x}}⏎`. -/
+example : JValidF exampleTree [10] ∧ Blank [10] ∧ hasBom (jrenderF exampleTree ++ [10]) = false :=
+  exampleTree_valid
 
 /-- the hypotheses are satisfiable: `a={b="x" c<{d=e}}⏎`. -/
 example : ValidF exampleNested [10] ∧ Blank [10] ∧ hasBom (renderF exampleNested ++ [10]) = false :=
